@@ -21,7 +21,8 @@ func C13(o *world.Obs) *Result {
 			continue
 		}
 		c := fg[0]
-		failed := c.Kind == "err" || (c.Kind == "resp" && c.Status >= 400)
+		ctxFailed := c.Kind == "hang" && c.CtxErr != ""
+		failed := c.Kind == "err" || ctxFailed || (c.Kind == "resp" && c.Status >= 400)
 		if !failed {
 			continue
 		}
@@ -31,7 +32,7 @@ func C13(o *world.Obs) *Result {
 		}
 		reqCC := model.ParseCC(ReqHeader(ex.Req))
 		vs := Versions(o, cand, ex.StartSeq)
-		eligible := c.Kind == "err" || sieStatus[c.Status]
+		eligible := c.Kind == "err" || ctxFailed || sieStatus[c.Status]
 		// window analysis per version
 		mustServe, mustNot := true, true
 		unspecWhy := ""
@@ -52,8 +53,18 @@ func C13(o *world.Obs) *Result {
 			_, ncPresent, ncQualified := cc.NoCache()
 			blocked := cc.Has["must-revalidate"] || (ncPresent && !ncQualified) || reqCC.Has["no-cache"]
 			if ncPresent && ncQualified {
+				// whether a qualified no-cache blocks stale-if-error is not judged; if the stored
+				// response is served, the named fields must be withheld (checked below)
 				mustServe, mustNot = false, false
 				unspecWhy = "qualified-no-cache"
+				if src, fromStore := o.FromStore(ex); fromStore && src.Serial == cand.Serial && ex.Resp != nil {
+					fields, _, _ := cc.NoCache()
+					for _, f := range fields {
+						if vals := ex.Resp.Header.Values(f); len(vals) > 0 {
+							r.Fail("C13", "served-with-qualified-fields", ex.Idx, "stale-if-error response replays field %s named by no-cache (%q) without validation; %s", f, vals, SummarizeExchange(o, ex))
+						}
+					}
+				}
 				break
 			}
 			if _, ok, _ := reqCC.Delta("max-age"); ok {
@@ -76,7 +87,11 @@ func C13(o *world.Obs) *Result {
 				unspecWhy = "invalid-sie-argument"
 				break
 			}
-			ageLo, ageHi, exact := v.AgeBounds(ex.StartNs)
+			// the window may be evaluated at any instant of the exchange (a validation that hangs
+			// until the caller's deadline takes time): "inside" must hold at its end, "outside"
+			// already at its start
+			ageLo, _, exact := v.AgeBounds(ex.StartNs)
+			_, ageHi, _ := v.AgeBounds(ex.EndNs)
 			lifeLo, lifeHi, _, _ := v.Lifetime()
 			if !model.HeuristicAllowed(v.Status, cc, true) {
 				if _, _, kind, _ := v.Lifetime(); kind == "heuristic" {
@@ -113,6 +128,9 @@ func C13(o *world.Obs) *Result {
 		src, fromStore := o.FromStore(ex)
 		servedStale := fromStore && src != nil && src.Serial == cand.Serial && ex.Resp != nil
 		failKind := "err"
+		if ctxFailed {
+			failKind = "deadline"
+		}
 		if c.Kind == "resp" {
 			failKind = strconv.Itoa(c.Status)
 		}
@@ -194,7 +212,9 @@ func ageCheck(vs []model.Version, ex *world.Exchange) string {
 	}
 	desc := ""
 	for _, v := range vs {
-		lo, hi, exact := v.AgeBounds(ex.StartNs)
+		// the Age may be computed at any instant between the start and the end of the exchange
+		lo, _, exact := v.AgeBounds(ex.StartNs)
+		_, hi, _ := v.AgeBounds(ex.EndNs)
 		if !exact {
 			return "" // invalid / list-valued upstream Age: not judged
 		}
